@@ -903,6 +903,9 @@ def family_reject():
         (['C08'], 'two inline sets, one of them unused', 'A', 'wire.NewSet(NewA), wire.NewSet(NewC)'),
         (['C08'], 'unused field provider', 'A', 'NewA, wire.Value(S{}), wire.FieldsOf(new(S), "Name")'),
         (['C09'], 'provider without results', 'A', 'NewA, NoResult'),
+        (['C08'], 'unused field provider followed by a used one (two wire.FieldsOf items)', 'A', 'wire.Value(S{}), wire.FieldsOf(new(S), "Name"), wire.FieldsOf(new(S), "A")'),
+        (['C08'], 'unused value followed by a used one', 'A', 'wire.Value(3), wire.Value(VA)'),
+        (['C08'], 'unused binding followed by a used one', 'I', 'NewC, NewJ, wire.Bind(new(J2), new(J)), wire.Bind(new(I), new(*C))'),
         (['C09', 'C20'], 'injector without results', '', 'NewA'),
         (['C09', 'C20'], 'injector without results and with a parameter', '', 'NewB', 'a A'),
         # the same source reached twice / sibling sets, through every way the front end merges sets
@@ -924,7 +927,7 @@ def family_reject():
         (['C07'], 'provider depending on its own result', 'Self', 'NewSelf'),
         (['C07'], 'cycle of three providers behind a value', 'B', 'NewA, NewB, wire.NewSet(NewC3a, NewC3b, NewC3c)'),
     ]
-    extra = 'type J interface{ Other() }\ntype jimpl struct{}\nfunc (jimpl) Other() {}\nfunc NewJ() J { return jimpl{} }\nfunc NewSpelled(lo uint8, hi byte) B { return B{} }\ntype Hooks struct {\n\tBefore func(req string) error\n\tAfter  func(resp string) error\n}\ntype CycA struct{}\ntype CycB struct{}\nfunc NewCycA(b CycB) CycA { return CycA{} }\nfunc NewCycB(a CycA) CycB { return CycB{} }\nfunc NoResult() {}\n'
+    extra = 'type J2 interface{ Other() }\ntype J interface{ Other() }\ntype jimpl struct{}\nfunc (jimpl) Other() {}\nfunc NewJ() J { return jimpl{} }\nfunc NewSpelled(lo uint8, hi byte) B { return B{} }\ntype Hooks struct {\n\tBefore func(req string) error\n\tAfter  func(resp string) error\n}\ntype CycA struct{}\ntype CycB struct{}\nfunc NewCycA(b CycB) CycA { return CycA{} }\nfunc NewCycB(a CycA) CycB { return CycB{} }\nfunc NoResult() {}\n'
     extra += ('type Fooer interface{ Foo() }\ntype Foo struct{}\nfunc (*Foo) Foo() {}\nfunc NewFoo(f Fooer) *Foo { return &Foo{} }\ntype Other struct{}\nfunc NewOther() Other { return Other{} }\n'
               'type SA struct{ B CycB2 }\ntype CycB2 struct{}\nfunc NewCycB2(a SA) CycB2 { return CycB2{} }\ntype G struct{}\ntype SF struct{ G G }\nfunc NewSF(g G) SF { return SF{} }\n'
               'type Self struct{}\nfunc NewSelf(s Self) Self { return s }\ntype C3a struct{}\ntype C3b struct{}\ntype C3c struct{}\nfunc NewC3a(x C3c) C3a { return C3a{} }\nfunc NewC3b(x C3a) C3b { return C3b{} }\nfunc NewC3c(x C3b) C3c { return C3c{} }\n')
